@@ -43,7 +43,7 @@ Definition sinks_ok (i0 o0 e0 : obj) (n : nat) (capture : bool) (idx : nat) (st 
 Definition Known_C04_child (capture last : bool) (st : stage) : bool := known_capdup last capture st.
 
 (* every stage of every pipeline, every variant of the code *)
-Theorem C04_sinks : forall v fail_at openable pl sh i0 o0 e0,
+Theorem C04_sinks_variants : forall v fail_at openable pl sh i0 o0 e0,
   std_ok (tab sh) i0 o0 e0 -> is_single_builtin pl = false ->
   let r := run_pipeline v fail_at openable pl sh in
   res_error r = false ->
@@ -66,28 +66,27 @@ Proof.
   cbv zeta. auto.
 Qed.
 
-(* PROPOSED notes/C04-fix-4.patch (capture pipes before the redirections): no stage class is left -- `$(prog 2>&1)`,
+(* the code as it is (/repo 65131df: capture pipes before the redirections): NO stage class is left -- `$(prog 2>&1)`,
    `$(prog 1>&2)`, `$(prog > f 2>&1)` follow the POSIX fold over the capture pipes like any other descriptor *)
-Definition v_fix4 := mkv true true true true true true true.
-Theorem C04_sinks_fix4 : forall fail_at openable pl sh i0 o0 e0,
+Theorem C04_sinks : forall fail_at openable pl sh i0 o0 e0,
   std_ok (tab sh) i0 o0 e0 -> is_single_builtin pl = false ->
-  let r := run_pipeline v_fix4 fail_at openable pl sh in
+  let r := run_pipeline v0 fail_at openable pl sh in
   res_error r = false ->
   kids_ok (fun idx st k => sinks_ok i0 o0 e0 (length (p_stages pl)) (p_capture pl) idx st k)
           0 (p_stages pl) (res_kids r).
 Proof.
   intros fail_at openable pl sh i0 o0 e0 SO NB r NE.
-  pose proof (kids_ok_bound _ _ _ _ (pipeline_kids v_fix4 openable fail_at pl sh i0 o0 e0 SO NB NE)) as K.
+  pose proof (kids_ok_bound _ _ _ _ (pipeline_kids v0 openable fail_at pl sh i0 o0 e0 SO NB NE)) as K.
   eapply kids_ok_impl; [|exact K]. cbn beta. intros idx st k (KS & BD) HE. cbn in BD.
   destruct (kid_std_fds _ _ _ _ _ _ _ _ _ _ _ KS HE) as (A & B & C).
   assert (LE : idx <= length (p_stages pl) - 1) by lia.
-  rewrite (final_sinks_posix v_fix4 (p_capture pl) (length (p_stages pl) - 1) idx (s_redirs st) o0 e0 LE
+  rewrite (final_sinks_posix v0 (p_capture pl) (length (p_stages pl) - 1) idx (s_redirs st) o0 e0 LE
              (or_intror (or_intror eq_refl))) in B, C.
   replace (S (length (p_stages pl) - 1)) with (length (p_stages pl)) in B, C by lia.
   cbv zeta. auto.
 Qed.
-Example C04_fix4_witnesses :
-  let ks rs := match res_kids (run_pipeline v_fix4 nf yes (mkplan [mks FNone rs KExt []] true) sh0) with
+Example C04_capture_dup_witnesses :
+  let ks rs := match res_kids (run_pipeline v0 nf yes (mkplan [mks FNone rs KExt []] true) sh0) with
                | [k] => map (obj_at (tab (k_proc k))) [1; 2; 3; 4; 5; 6] | _ => [] end in
   ks [mkr F2 false TAmp1] = [Some (OPipeW PCapOut); Some (OPipeW PCapOut); None; None; None; None] /\
   ks [mkr F1 false (TFile 5); mkr F2 false TAmp1] = [Some (OFile 5 MTrunc); Some (OFile 5 MTrunc); None; None; None; None] /\
@@ -130,18 +129,6 @@ Definition C04_full : Prop :=
      builtin_sink rs true = Some (fst (posix_sinks rs (OInh 1, OInh 2))) /\
      builtin_sink rs false = Some (snd (posix_sinks rs (OInh 1, OInh 2)))).
 
-(* $(prog 2>&1) : the duplication is ignored when the output is captured *)
-Example C04_refuted_capture_dup :
-  snd (child_sinks true [mkr F2 false TAmp1]) = Some (OPipeW PCapErr) /\
-  snd (posix_sinks [mkr F2 false TAmp1] (std_out (OInh 1) 1 true 0, std_err (OInh 2) 1 true 0)) = OPipeW PCapOut.
-Proof. vm_compute. split; reflexivity. Qed.
-
-Theorem C04_refuted : ~ C04_full.
-Proof.
-  intros (H & _). specialize (H true [mkr F2 false TAmp1] eq_refl).
-  vm_compute in H. discriminate.
-Qed.
-
 (* builtins that run in the shell itself (/repo c05c052: _get_std_fds is a left-to-right fold): every print lands
    where the POSIX fold of the WHOLE redirection list says -- no list excluded -- and the command fails (nothing
    printed, status 1) exactly when a file target cannot be opened *)
@@ -162,6 +149,62 @@ Example C04_builtin_regression :
   res_sinks (run_pipeline v_before_c05c052 nf yes (mkplan [mks FNone [mkr F2 false (TFile 5); mkr F1 false TAmp2] KBuiltin [true]] false) sh0) = [Some (OInh 2)] /\
   res_sinks (run_pipeline v0 nf yes (mkplan [mks FNone [mkr F2 false (TFile 5); mkr F1 false TAmp2] KBuiltin [true]] false) sh0) = [Some (OFile 5 MTrunc)].
 Proof. vm_compute. repeat split; reflexivity. Qed.
+
+(* regression: before 65131df a captured last stage ignored 2>&1 *)
+Definition v_before_65131df := mkv true true true true true true false.
+Example C04_capture_regression :
+  (match res_kids (run_pipeline v_before_65131df nf yes (mkplan [mks FNone [mkr F2 false TAmp1] KExt []] true) sh0) with
+   | [k] => obj_at (tab (k_proc k)) 2 | _ => None end) = Some (OPipeW PCapErr) /\
+  snd (child_sinks true [mkr F2 false TAmp1]) = Some (OPipeW PCapOut).
+Proof. vm_compute. split; reflexivity. Qed.
+
+(* ---- the full statement: both halves hold (no class left on the application side) ---- *)
+Lemma allopen_yes : forall rs, allopen yes rs = true.
+Proof. induction rs as [|r rest IH]; [reflexivity|]. cbn [allopen forallb]. unfold yes at 1. rewrite orb_true_r. exact IH. Qed.
+
+Lemma single_ext_no_error : forall capture rs,
+  res_error (run_pipeline v0 nf yes (mkplan [mks FNone rs KExt []] capture) sh0) = false.
+Proof.
+  intros capture rs. unfold run_pipeline. cbn [p_stages length mk_pipes]. cbv zeta.
+  unfold mk_capture, nf. cbn [p_capture]. unfold is_single_builtin. cbn [p_stages s_kind].
+  destruct capture.
+  - destruct (p_pipe PCapOut sh0) as [q1 o]. destruct (p_pipe PCapErr q1) as [q2 e].
+    destruct (run_stages v0 yes [] (Some o) (Some e) true 0 [mks FNone rs KExt []] q2). reflexivity.
+  - destruct (run_stages v0 yes [] None None false 0 [mks FNone rs KExt []] sh0). reflexivity.
+Qed.
+
+Theorem C04_holds : C04_full.
+Proof.
+  split.
+  - intros capture rs _. unfold child_sinks.
+    set (pl := mkplan [mks FNone rs KExt []] capture).
+    assert (SO : std_ok (tab sh0) (OInh 0) (OInh 1) (OInh 2)) by (repeat split).
+    pose proof (single_ext_no_error capture rs) as NE. fold pl in NE.
+    pose proof (pipeline_kids v0 yes nf pl sh0 _ _ _ SO eq_refl NE) as K.
+    pose proof (C04_sinks nf yes pl sh0 _ _ _ SO eq_refl NE) as KS.
+    subst pl. cbn [p_stages p_capture length] in K, KS.
+    destruct (res_kids (run_pipeline v0 nf yes (mkplan [mks FNone rs KExt []] capture) sh0)) as [|k [|k2 kr]]; cbn [kids_ok] in K, KS;
+      [cbn in K; destruct K | | destruct K as (_ & K2); cbn in K2; destruct K2].
+    destruct K as ((_ & _ & KO & _) & _). destruct KS as (KS & _).
+    assert (HE : k_out k = OExec).
+    { rewrite KO; [reflexivity|]. unfold opens_ok, from_openable. cbn [s_from s_redirs andb].
+      clear. induction rs as [|r rest IH]; [reflexivity|]. cbn [posix_opens]. unfold yes at 1.
+      destruct (is_file_redir r); [|exact IH]. destruct (posix_opens yes rest). exact IH. }
+    destruct (KS HE) as (_ & B & C). unfold obj_at. rewrite B, C. reflexivity.
+  - intros rs _.
+    assert (G : forall is_out, builtin_sink rs is_out
+                = Some (if is_out then fst (posix_sinks rs (OInh 1, OInh 2)) else snd (posix_sinks rs (OInh 1, OInh 2)))).
+    { intro is_out. unfold builtin_sink.
+      destruct (C04_builtin_sinks nf yes (mkplan [mks FNone rs KBuiltin [is_out]] false) sh0
+                  (mks FNone rs KBuiltin [is_out]) (OInh 1) false (OInh 2) false eq_refl eq_refl eq_refl eq_refl eq_refl) as (S1 & S2).
+      cbn [s_redirs s_prints map] in S1, S2.
+      assert (NE : res_error (run_pipeline v0 nf yes (mkplan [mks FNone rs KBuiltin [is_out]] false) sh0) = false).
+      { destruct (res_error (run_pipeline v0 nf yes (mkplan [mks FNone rs KBuiltin [is_out]] false) sh0)) eqn:E; [|reflexivity].
+        pose proof (proj1 S2 eq_refl) as E2. rewrite allopen_yes in E2. discriminate. }
+      rewrite (S1 NE). reflexivity. }
+    split; [apply (G true) | apply (G false)].
+Qed.
+Check C04_holds : C04_full.
 
 (* only the redirected command is affected: the shell's own table is what it was *)
 Theorem C04_shell_unaffected : forall v openable pl sh,
@@ -184,7 +227,6 @@ Print Assumptions C04_parse_from.
 Print Assumptions C04_parse_from_attached.
 Print Assumptions C04_sinks.
 Print Assumptions C04_unopenable.
-Print Assumptions C04_sinks_fix4.
 Print Assumptions C04_builtin_sinks.
 Print Assumptions C04_shell_unaffected.
-Print Assumptions C04_refuted.
+Print Assumptions C04_holds.
